@@ -425,10 +425,14 @@ class ErrorRanges:
         self._lengths = self._compute_lengths()
 
     def _compute_lengths(self) -> List[int]:
-        lengths = [
-            int(errors / self.error_rate) - 1
-            for errors in range(1, int(self.error_rate * self.length) + 1)
-        ]
+        # lengths[i] is the last length at which int(error_rate * length) is
+        # still i. Compute this with the same product the aligner uses instead
+        # of the quotient errors / error_rate, which is off by one whenever it
+        # is not an integer (rate 0.3: one error needs 4 bases, not 3)
+        lengths: List[int] = []
+        for length in range(1, self.length + 1):
+            while int(self.error_rate * length) > len(lengths):
+                lengths.append(length - 1)
         if not lengths or lengths[-1] < self.length:
             lengths.append(self.length)
         return lengths
